@@ -16,6 +16,12 @@ Driver family `evm` (C10).  Lines written by `harness/ethereum/*_verif_test.go`:
   then the implementation's results `heads= look= fwd= reord= out= pend= en= exit= stuck= bts=`.
 * `restart <cid> was= gserr= <tail> sub=` — `Run` had returned (`was` = why) and the supervisor started it again on the same
   `Watcher`; `gserr=1`: the guardian-set call of the new incarnation failed (`Run` returned again during start-up).
+  `start` and `restart` lines: `pe=`/`nn=` = how many of the block poller's first block queries failed (and how), `tried=` = the
+  block tags it requested up to and including the first one that was answered, `tag=` = the tag of that one.
+* `rreobs <cid> tx= blat= bfin= bsafe= k= sw= seq= rc= rbt= rlogs= rc2= rbt2= <tail>` — an observation request during which the
+  node changed branch: after `k` RPC requests of the re-observation had been answered the heads moved from `blat/bfin/bsafe` to
+  the tail's `lat/fin/safe` and the transaction's receipt from `rc` (block time `rbt`) to `rc2` (`rbt2`); `seq` = the RPC requests
+  of the re-observation in order, each with the view it was answered in (`hq:<tag>/a`, `rc/a`, `bt/b`), `sw` = how many in view a.
 * `gsf <id> via= cur= cidx= cn= ckeys= callerr= sent= idx= n= keys= err= after= panic= stuck=` — one guardian-set fetch
   (`fetchAndUpdateGuardianSet` directly, or the initial fetch of `Run`): what the chain holds next to what arrived on `setC`.
 * `evt <id> ...` / `gb <id> ...` / `pb <id> ...` — direct calls of `MessageEventsForTransaction`, `getBlock`, `pollBlocks`.
@@ -244,12 +250,46 @@ def sameIdentity (x : Msg) (m : String) : Bool :=
   | [tx, _, _, seq, _, _, em, _, _] => tx == toHex x.tx && seq == toString x.seq && em == toHex x.emitter
   | _ => false
 
+/-- multiset difference -/
+def minusL (a b : List String) : List String :=
+  b.foldl (fun acc x => match removeOne x acc with | some l => l | none => acc) a
+
+/-- `rreobs`: what a re-observation may hand over when the node changed branch during the request. The statement: "the chain
+head the watcher has seen is at least the log's block number plus the required confirmations, and at that moment the
+transaction's receipt still points to the same block". Two moments exist: view a (only if at least one RPC request of the
+re-observation was answered in it) with the heads the watcher had seen by then (`seenA`), and view b with everything it has
+seen (`seenB`). A message is justified if, in one of the two views, the receipt is a successful one carrying its log (core
+contract, topic) and its block number + confirmations ≤ the heads seen by that view. -/
+def rreobsJust (cfg : Cfg) (topic : Bytes) (hasA : Bool) (rcA : Option Receipt) (btA : Option Nat) (seenA : Nat)
+    (rcB : Option Receipt) (btB : Option Nat) (seenB : Nat) : List String :=
+  let ja := if hasA then reobsJustified cfg topic rcA btA seenA else []
+  let jb := reobsJustified cfg topic rcB btB seenB
+  ja ++ minusL jb ja
+
+/-- does the later receipt still point to the block of the earlier one? -/
+def sameBlock (rcA rcB : Option Receipt) : Bool :=
+  match rcA, rcB with
+  | some a, some b => a.bh == b.bh && b.status == 1
+  | _, _ => false
+
+def rreobsWhy (cfg : Cfg) (topic : Bytes) (hasA : Bool) (rcA : Option Receipt) (btA : Option Nat) (seenA : Nat)
+    (rcB : Option Receipt) (btB : Option Nat) (seenB : Nat) (m : String) : String :=
+  let wa := if hasA then reobsWhy cfg topic rcA btA seenA m else "forwarded-unknown"
+  let wb := reobsWhy cfg topic rcB btB seenB m
+  if wa = "reobs-not-final" then
+    -- deep enough only under a head seen after the node had changed branch, when the receipt no longer pointed to that block
+    if reobsWhy cfg topic rcA btA seenB m = "forwarded-twice" && !sameBlock rcA rcB then "reobs-receipt-moved" else "reobs-not-final"
+  else if wa ≠ "forwarded-unknown" then wa else wb
+
 structure SpecIn where
   heads : List Nat
   fwd : List String
   pend : List String
   ans : List (String × NodeRc)
   reobs : Option (Option Receipt × Option Nat) := none   -- receipt + block time the node served for the re-observed tx
+  just : List String := []                               -- `rreobs`: what the re-observation may hand over (computed by the op)
+  whyAlt : Option (String → String) := none              -- `rreobs`: the clause for a message that is not in `just`
+  note : String := ""
 
 def specEval (c : CaseSt) (op : String) (topic : Bytes) (i : SpecIn) : CaseSt := Id.run do
   let cfg := c.cfg
@@ -265,6 +305,13 @@ def specEval (c : CaseSt) (op : String) (topic : Bytes) (i : SpecIn) : CaseSt :=
         if !(i.fwd.contains (showMsg e.msg)) then
           c := c.addSpec "pending-lost" s!"{op}#{c.lines} message {showKey e.key} disappeared from pending although no head was processed"
   | some H =>
+    -- "the chain head the watcher has seen is at least the log's block number plus the required confirmations (zero on chains
+    -- read at finalized height)": the head is the one of the height the chain is read at - a message handed over must have
+    -- reached its depth under a head the node has served at that height
+    for e in c.truth do
+      let conf := specConf cfg e.msg.cl
+      if i.fwd.contains (showMsg e.msg) && !inPend e && e.height + conf ≤ H && e.height + conf > c.maxServed then
+        c := c.addSpec "forwarded-not-final" s!"{op}#{c.lines} message {showKey e.key} at height {e.height} needs {conf} confirmations and was forwarded at head {H}, but the highest head the node has served at the height this chain is read at ({reobsHeadTag cfg}) is {c.maxServed}"
     if H > c.maxServed then
       c := c.addSpec "head-not-served" s!"{op}#{c.lines} watcher processed head {H} but the node never served more than {c.maxServed}"
     let mut keep : List Pend := []
@@ -303,7 +350,7 @@ def specEval (c : CaseSt) (op : String) (topic : Bytes) (i : SpecIn) : CaseSt :=
   let mut reobsOK : List String :=
     match i.reobs with
     | some (rc, bt) => reobsJustified cfg topic rc bt c.maxServed
-    | none => []
+    | none => i.just
   for m in fwdLeft do
     match removeOne m reobsOK with
     | some l => reobsOK := l
@@ -321,8 +368,11 @@ def specEval (c : CaseSt) (op : String) (topic : Bytes) (i : SpecIn) : CaseSt :=
         | none =>
           match i.reobs with
           | some (rc, bt) => return reobsWhy cfg topic rc bt c.maxServed m
-          | none => return "forwarded-unknown"
-      c := c.addSpec clause s!"{op}#{c.lines} forwarded message {m} is not justified"
+          | none =>
+            match i.whyAlt with
+            | some f => return f m
+            | none => return "forwarded-unknown"
+      c := c.addSpec clause s!"{op}#{c.lines} forwarded message {m} is not justified{i.note}"
   return c
 
 /-! ## ops -/
@@ -344,6 +394,11 @@ def modelSettle (c : CaseSt) (W : Nat) (ans : List (String × NodeRc)) : CaseSt 
   | (st', none) => ({ c with st := st' }, {})
 
 def topicBytes : Bytes := (ofHex logTopicHex).getD []
+
+/-- the tags the poller is expected to have requested when its first `pe` block queries fail: `pollerStart` on `pe` failing
+answers followed by one that serves `W` -/
+def expTried (cfg : Cfg) (pe W : Nat) : String :=
+  joinS (pollerStart cfg.useFinalized (List.replicate pe (fun _ => BlockAns.err) ++ [fun _ => BlockAns.ok W])).1 ","
 
 def stepCase (c : CaseSt) (op : String) (fs : List String) : CaseSt :=
   let c := { c with lines := c.lines + 1 }
@@ -421,6 +476,10 @@ def stepCase (c : CaseSt) (op : String) (fs : List String) : CaseSt :=
         else { c with st := restart c.st W, alive := !gserr }
       let cm := compareObs cm op fs { exit := if gserr then "gs" else "-" }
       let cm := if !gserr && !c.alive && kvBool fs "en" then cm.addDiff s!"{op}#{cm.lines} poller enabled right after a restart" else cm
+      let cm := match kv fs "tried" with
+        | some t => if !gserr && implExit = "-" && t ≠ expTried c.cfg pe W then
+            cm.addDiff s!"{op}#{cm.lines} block tags requested by the new poller until its first block: model={expTried c.cfg pe W} impl={t}" else cm
+        | none => cm
       let expSub := s!"{toHex c.cfg.contract}/{logTopicHex};-"
       let cm := if !gserr && implExit = "-" && kv fs "sub" ≠ some expSub then
                   cm.addSpec "sub-filter" s!"{op}#{cm.lines} log subscription filter after the restart is {(kv fs "sub").getD "?"}, expected {expSub}" else cm
@@ -468,6 +527,57 @@ def stepCase (c : CaseSt) (op : String) (fs : List String) : CaseSt :=
                     cm.addDiff s!"{op}#{cm.lines} head reads during re-observation: model={reobsHeadTag c.cfg} impl={(kv fs "hq").getD "?"}" else cm
         if implExit = "-" then specEval cm op topicBytes { specIn with reobs := some (rcv, bt) } else cm
       | _, _, _, _, _, _ => c.addDiff s!"{op}#{c.lines} unparsable reobs line"
+    | "rreobs" =>
+      match kvHex fs "tx", kvNat fs "blat", kvNat fs "bfin", kvNat fs "k", (kv fs "rc") >>= parseNodeRc, kv fs "rbt",
+            (kv fs "rlogs") >>= parseRLogs, (kv fs "rc2") >>= parseNodeRc, kv fs "rbt2" with
+      | some tx, some blat, some bfin, some k, some (nrcA, bnA), some rbtA, some rlogs, some (nrcB, bnB), some rbtB =>
+        let Wa := watchedBy c.cfg blat bfin
+        let mkRc := fun (nrc : NodeRc) (bn : Option Nat) => match nrc with
+          | .receipt s bh => ((some { status := s, bh := bh, bn := bn, logs := rlogs } : Option Receipt), false)
+          | _ => ((none : Option Receipt), true)
+        let (rcA, errA) := mkRc nrcA bnA
+        let (rcB, errB) := mkRc nrcB bnB
+        let btA := parseBt rbtA
+        let btB := parseBt rbtB
+        -- blocks stay retrievable by hash on either branch
+        let btOf : Bytes → Option Nat := fun h =>
+          if (rcA.map (·.bh)) = some h then btA else if (rcB.map (·.bh)) = some h then btB else none
+        let va : NodeView := { head := some Wa, rc := rcA, rcErr := errA, bt := btOf }
+        let vb : NodeView := { head := some W, rc := rcB, rcErr := errB, bt := btOf }
+        let tag := reobsHeadTag c.cfg
+        let sv := fun (j : Nat) => if j ≤ k then "a" else "b"
+        let vr := viewAt k va vb 2
+        let btAsked : Option Bytes := match vr.rc with
+          | some r => if !vr.rcErr && r.status = 1 then some r.bh else none
+          | none => none
+        let expSeq := [s!"hq:{tag}/{sv 1}", s!"rc/{sv 2}"] ++ (if btAsked.isSome then [s!"bt/{sv 3}"] else [])
+        let iseq := kvList fs "seq" ","
+        let (cm, obs) : CaseSt × Obs :=
+          if !c.alive then (c, {})
+          else
+            let decs := reobserveAcross c.cfg topicBytes k va vb
+            let o : Obs :=
+              { look := [toHex tx],
+                bts := btAsked.toList.map toHex,
+                fwd := (reobsForwardedAcross c.cfg topicBytes k va vb).map showMsg,
+                reord := if decs.any (fun x => x.2 = .zero) then decs.map (fun _ => "z")
+                         else decs.map fun x => (if x.2 = .fwd then "f" else "i") ++ toString x.1.seq }
+            let (c2, o2) := modelSettle c W ans
+            (c2, Obs.merge o o2)
+        let cm := compareObs cm op fs obs
+        let cm := if c.alive && implExit = "-" && iseq ≠ expSeq then
+                    cm.addDiff s!"{op}#{cm.lines} RPC requests of the re-observation (with the view each was answered in): model={joinS expSeq ","} impl={joinS iseq ","}" else cm
+        -- Spec, on the implementation's own requests: which heads had it seen in which view
+        let hasA := iseq.any (·.endsWith "/a")
+        let seenA := if iseq.contains s!"hq:{tag}/a" then max c.maxServed Wa else c.maxServed
+        let seenB := if iseq.contains s!"hq:{tag}/b" then max seenA W else seenA
+        let just := rreobsJust c.cfg topicBytes hasA rcA btA seenA rcB btB seenB
+        let note := s!" (node changed branch after {(kvNat fs "sw").getD 0} of the requests {joinS iseq ","}: receipt {(kv fs "rc").getD "?"} -> {(kv fs "rc2").getD "?"}, head {Wa} -> {W}; heads seen while the first receipt held: {seenA}, after: {seenB})"
+        let cs := if implExit = "-" then
+                    specEval cm op topicBytes { specIn with just := just, note := note, whyAlt := some (rreobsWhy c.cfg topicBytes hasA rcA btA seenA rcB btB seenB) }
+                  else cm
+        { cs with maxServed := max (max cs.maxServed Wa) W }
+      | _, _, _, _, _, _, _, _, _ => c.addDiff s!"{op}#{c.lines} unparsable rreobs line"
     | _ => c.addDiff s!"unknown op {op}"
 
 def startCase (id : String) (fs : List String) : CaseSt :=
@@ -483,6 +593,10 @@ def startCase (id : String) (fs : List String) : CaseSt :=
     if gserr then c else
     let expTag := blockTag none cfg.useFinalized false
     let c := if kv fs "tag" ≠ some expTag then c.addDiff s!"start: block tag model={expTag} impl={(kv fs "tag").getD "?"}" else c
+    let c := match kv fs "tried" with
+      | some t => if t ≠ expTried cfg ((kvNat fs "pe").getD 0) W then
+          c.addDiff s!"start: block tags requested by the poller until its first block: model={expTried cfg ((kvNat fs "pe").getD 0) W} impl={t}" else c
+      | none => c
     let c := if kv fs "topic" ≠ some logTopicHex then c.addDiff s!"start: LogMessagePublishedTopic constant is {(kv fs "topic").getD "?"}" else c
     -- Spec: the subscription must ask the node for logs of the configured contract with the message-published topic only
     let expSub := s!"{toHex contract}/{logTopicHex};-"
@@ -631,7 +745,7 @@ def step (st : DSt) (line : String) : DSt × List String :=
       | none => []
     ({ bump st "ws_cases" with cur := some (startCase id rest) }, outs)
   | op :: id :: rest =>
-    if op = "log" || op = "head" || op = "reobs" || op = "race" || op = "restart" then
+    if op = "log" || op = "head" || op = "reobs" || op = "rreobs" || op = "race" || op = "restart" then
       match st.cur with
       | some c =>
         if c.id = id then
